@@ -155,11 +155,15 @@ pub fn exec_case_isolated(prop: &str, stage: &str, case: &serde_json::Value, tim
     let Ok(mut child) = child else { return CaseOutcome::Timeout };
     let _ = child.stdin.take().unwrap().write_all(input.as_bytes());
     // watchdog: poll, kill the child after the limit
-    let deadline = Instant::now() + Duration::from_secs(timeout_s.max(1));
+    let start = Instant::now();
+    let mut deadline = start + Duration::from_secs(timeout_s.max(1));
     loop {
         match child.try_wait() {
             Ok(Some(_)) => break,
             Ok(None) => {
+                if Instant::now() > deadline && start + stretched_limit(timeout_s) > Instant::now() {
+                    deadline = start + stretched_limit(timeout_s);
+                }
                 if Instant::now() > deadline {
                     let _ = child.kill();
                     let _ = child.wait();
@@ -314,6 +318,16 @@ pub enum CaseOutcome {
 }
 
 /// Run `f` on `case` in a fresh thread, capturing panics.
+/// The per-case limit is a limit on work, not on wall-clock time: on a machine whose run queue is longer than its
+/// number of cores a case gets only a fraction of a core, so the allowed wall-clock time is stretched by the 1-minute
+/// load average per core (at most 8x).  Evaluated when the plain limit expires.
+pub fn stretched_limit(timeout_s: u64) -> Duration {
+    let ncpu = std::thread::available_parallelism().map(|n| n.get()).unwrap_or(1) as f64;
+    let load = std::fs::read_to_string("/proc/loadavg").ok().and_then(|s| s.split_whitespace().next().and_then(|x| x.parse::<f64>().ok())).unwrap_or(0.0);
+    let factor = (1.5 * load / ncpu).clamp(1.0, 8.0);
+    Duration::from_millis((timeout_s.max(1) as f64 * 1000.0 * factor) as u64)
+}
+
 pub fn exec_case<C: Clone + Send + 'static>(case: &C, run: RunFn<C>, timeout_s: u64) -> CaseOutcome {
     let c = case.clone();
     let (tx, rx) = mpsc::channel();
@@ -335,12 +349,23 @@ pub fn exec_case<C: Clone + Send + 'static>(case: &C, run: RunFn<C>, timeout_s: 
             let _ = tx.send(out);
         })
         .expect("spawn");
-    match rx.recv_timeout(Duration::from_secs(timeout_s)) {
-        Ok(o) => {
-            let _ = handle.join();
-            o
+    let start = Instant::now();
+    let mut wait = Duration::from_secs(timeout_s);
+    loop {
+        match rx.recv_timeout(wait) {
+            Ok(o) => {
+                let _ = handle.join();
+                return o;
+            }
+            Err(_) => {
+                let allowed = stretched_limit(timeout_s);
+                let el = start.elapsed();
+                if el >= allowed {
+                    return CaseOutcome::Timeout;
+                }
+                wait = allowed - el;
+            }
         }
-        Err(_) => CaseOutcome::Timeout,
     }
 }
 
@@ -589,6 +614,11 @@ pub trait DynStage: Send + Sync {
     fn replay(&self, case: &serde_json::Value) -> Result<(Result<(), String>, String), String>;
     /// child-process entry of isolate mode: run the case here and describe the outcome
     fn exec_json(&self, case: &serde_json::Value) -> serde_json::Value;
+    /// libFuzzer entry: the bytes become the random stream of this stage's proptest strategy
+    /// (RngAlgorithm::PassThrough), the resulting case is judged by the stage's run function.
+    /// None: the stage has no random source; Some(None): case passed (or was skipped / timed out).
+    fn fuzz_one(&self, data: &[u8]) -> Option<Option<Failure>>;
+    fn is_random(&self) -> bool;
 }
 
 impl<C> DynStage for Stage<C>
@@ -621,6 +651,51 @@ where
             total.merge(r);
         }
         total
+    }
+
+    fn is_random(&self) -> bool {
+        matches!(self.source, Source::Random(..))
+    }
+
+    fn fuzz_one(&self, data: &[u8]) -> Option<Option<Failure>> {
+        let Source::Random(f, _) = &self.source else { return None };
+        let strat = f();
+        // an exhausted pass-through stream yields zeros, on which rand's rejection sampling never terminates:
+        // the input is continued by a pseudo-random tail that is a function of the input
+        let mut stream = data.to_vec();
+        let mut x: u64 = 0x9E37_79B9_7F4A_7C15 ^ (data.len() as u64);
+        for b in data {
+            x = (x ^ *b as u64).wrapping_mul(0x0000_0100_0000_01B3);
+        }
+        while stream.len() < data.len() + (1 << 16) {
+            x ^= x << 13;
+            x ^= x >> 7;
+            x ^= x << 17;
+            stream.extend_from_slice(&x.to_le_bytes());
+        }
+        let rng = proptest::test_runner::TestRng::from_seed(proptest::test_runner::RngAlgorithm::PassThrough, &stream);
+        let mut runner = proptest::test_runner::TestRunner::new_with_rng(
+            proptest::test_runner::Config { failure_persistence: None, ..Default::default() },
+            rng,
+        );
+        let Ok(tree) = strat.new_tree(&mut runner) else { return Some(None) };
+        let case = tree.current();
+        let msg = match exec_case(&case, self.run, 300) {
+            CaseOutcome::Pass(_) | CaseOutcome::Timeout => return Some(None),
+            CaseOutcome::Fail(m, _) => {
+                if m.starts_with("INCONCLUSIVE:") {
+                    return Some(None);
+                }
+                m
+            }
+            CaseOutcome::Panic(m, _) => {
+                if !self.panic_is_violation {
+                    return Some(None);
+                }
+                m
+            }
+        };
+        Some(Some(Failure { stage: self.name.to_string(), message: msg, case_json: serde_json::to_value(&case).unwrap(), rendered: (self.render)(&case), shard: 0 }))
     }
 
     fn exec_json(&self, case: &serde_json::Value) -> serde_json::Value {
@@ -662,4 +737,54 @@ pub struct Property {
 
 pub fn wall() -> Instant {
     Instant::now()
+}
+
+
+// ---------------------------------------------------------------------------------------------
+// Fork-free choice strategies.  proptest's `prop_oneof!` / `option::weighted` keep a lazily generated tree per
+// alternative, for which they fork the runner's RNG; with the pass-through RNG of the libFuzzer path every fork halves
+// the remaining byte stream, which is then exhausted after a few dozen choices.  These pick one alternative from one
+// 32-bit draw (monotone in the draw, so that shrinking the draw moves towards the first alternative is not needed:
+// the chosen alternative shrinks on its own).
+
+pub struct OneOf<T: Debug>(pub Vec<(u32, BoxedStrategy<T>)>);
+
+impl<T: Debug> Debug for OneOf<T> {
+    fn fmt(&self, f: &mut std::fmt::Formatter) -> std::fmt::Result {
+        write!(f, "OneOf({} alternatives)", self.0.len())
+    }
+}
+
+impl<T: Debug + 'static> Strategy for OneOf<T> {
+    type Tree = Box<dyn ValueTree<Value = T>>;
+    type Value = T;
+    fn new_tree(&self, runner: &mut TestRunner) -> proptest::strategy::NewTree<Self> {
+        use proptest::prelude::RngCore;
+        let total: u64 = self.0.iter().map(|(w, _)| *w as u64).sum();
+        let r = runner.rng().next_u32() as u64;
+        let mut pick = (r * total) >> 32;
+        for (w, s) in &self.0 {
+            if pick < *w as u64 {
+                return s.new_tree(runner);
+            }
+            pick -= *w as u64;
+        }
+        self.0.last().unwrap().1.new_tree(runner)
+    }
+}
+
+#[macro_export]
+macro_rules! one_of {
+    ($($w:expr => $s:expr),+ $(,)?) => {
+        $crate::engine::OneOf(vec![$(($w as u32, proptest::strategy::Strategy::boxed($s))),+])
+    };
+}
+
+/// Some(x) with probability `p`
+pub fn opt_weighted<S: Strategy + 'static>(p: f64, s: S) -> OneOf<Option<S::Value>>
+where
+    S::Value: Clone + 'static,
+{
+    let w = (p * 1000.0).round() as u32;
+    OneOf(vec![(1000 - w, proptest::strategy::Just(None).boxed()), (w, s.prop_map(Some).boxed())])
 }
